@@ -960,9 +960,9 @@ Proof.
     assert (Hfr1 : kframe s s1).
     { eapply kframe_trans; [|exact I2]. unfold kframe. split_all; reflexivity. }
     destruct retry as [|e1 l1] eqn:Hr.
-    + split_all; auto.
-      * destruct Hfr1 as [A1 [A2 [A3 [A4 [A5 [A6 A7]]]]]]. unfold kframe. split_all; auto.
-      * intros x y. rewrite <- I6. reflexivity.
+    + split_all; auto;
+        try (destruct Hfr1 as [A1 [A2 [A3 [A4 [A5 [A6 A7]]]]]]; unfold kframe; split_all; auto; fail);
+        try (intros x y; rewrite <- I6; reflexivity).
     + rewrite <- Hr in *. clear Hr e1 l1.
       pose proof (flush_mod_only retry (set_sq (set_sq s1 retry) []) [] Hmods I3) as Hret.
       destruct (flush_entries_spec retry (set_sq (set_sq s1 retry) []) []) as [J1 [J2 [J3 [J4 [J5 J6]]]]];
@@ -972,8 +972,157 @@ Proof.
       rewrite Hret in * by auto.
       assert (Hfr2 : kframe s s2).
       { eapply kframe_trans; [exact Hfr1|]. eapply kframe_trans; [|exact J2]. unfold kframe. split_all; reflexivity. }
-      split_all; auto.
-      * destruct Hfr2 as [A1 [A2 [A3 [A4 [A5 [A6 A7]]]]]]. unfold kframe. split_all; auto.
-      * intros x y. cbn [vfold fold_left] in J6. unfold vfold in J6 at 1. cbn in J6. rewrite J6.
-        destruct Hfr1 as [_ [_ [_ [A4 _]]]]. rewrite A4. apply I6.
+      split_all; auto;
+        try (destruct Hfr2 as [A1 [A2 [A3 [A4 [A5 [A6 A7]]]]]]; unfold kframe; split_all; auto; fail).
+      intros x y. cbn [ep set_sq]. specialize (J6 x y). unfold vfold in J6 at 1. cbn [fold_left] in J6. rewrite J6.
+      destruct Hfr1 as [_ [_ [_ [A4 _]]]]. rewrite A4. apply I6.
+Qed.
+
+(* the state the prepared ring entries stand for *)
+Definition virt (s : state) : state := set_sq (set_ep s (vfold (fdt s) (sq s) (ep s))) [].
+
+Definition ringW (s : state) (r : list nat) : Prop :=
+  NoDup (map efd (sq s)) /\
+  (forall ent, In ent (sq s) -> okent s ent) /\
+  (forall ent, In ent (sq s) -> exists j, reg s (efd ent) = Some j /\ ~ In j r).
+
+Lemma KI_reg_loop_ring q : forall s, ring s = true -> KI (set_wq (virt s) q) -> ringW s q ->
+  KI (set_wq (virt (reg_loop s q)) []) /\ ringW (reg_loop s q) [] /\
+  ring (reg_loop s q) = true /\ wq (reg_loop s q) = wq s.
+Proof.
+  induction q as [|i r IH]; intros s Hring K W; cbn [reg_loop]; auto.
+  set (s1 := hupd s i (fun h => h_set_ev h (h_pev h))).
+  change (ring s1) with (ring s). rewrite Hring.
+  set (fd := h_fd (hget s i)). set (m := h_pev (hget s i)).
+  set (op := if mzero (h_ev (hget s i)) then CAdd else CMod).
+  set (s' := set_sq s1 (sq s1 ++ [(op, fd, m)])).
+  assert (Hri : reg s fd = Some i) by (apply (k_wq _ K i); left; auto).
+  destruct (k_reg _ K _ _ Hri) as [Hli _].
+  pose proof (k_fdopen _ K i Hli) as Hfo. cbn [fdt set_wq virt set_sq set_ep] in Hfo.
+  change (hget (set_wq (virt s) (i :: r)) i) with (hget s i) in Hfo. fold fd in Hfo.
+  destruct (fdt s fd) as [o|] eqn:Hf; [|congruence].
+  destruct W as [W1 [W2 W3]].
+  assert (Hnotin : ~ In fd (map efd (sq s))).
+  { intros Hin. apply in_map_iff in Hin. destruct Hin as [ent [He Hin]]. destruct (W3 _ Hin) as [j [Hj Hn]].
+    rewrite He, Hri in Hj. inversion Hj; subst. apply Hn. left; auto. }
+  pose proof (k_wqnd _ K) as Hnd. cbn [wq set_wq] in Hnd. inversion Hnd as [|? ? Hir Hndr]; subst.
+  assert (K' : KI (set_wq (virt s') r)).
+  { eapply (KI_ideal_step (virt s) i r (virt s')); eauto.
+    - cbn. apply upd_length.
+    - intros x y. cbn [ep virt set_sq set_ep sq fdt]. unfold s'. cbn [sq set_sq fdt ep]. change (sq s1) with (sq s).
+      change (fdt s1) with (fdt s). change (ep s1) with (ep s). unfold vfold. rewrite fold_left_app. cbn [fold_left].
+      unfold ideal_ep, vexec. change (hget (virt s) i) with (hget s i). fold fd. fold m.
+      change (efd (op, fd, m)) with fd. cbn [fdt virt set_sq set_ep ep snd]. reflexivity. }
+  assert (W' : ringW s' r).
+  { unfold ringW, s'. cbn [sq set_sq]. change (sq s1) with (sq s). split_all.
+    - rewrite map_app. cbn. apply NoDup_app_one; auto.
+    - intros ent Hin. apply in_app_or in Hin. destruct Hin as [Hin|[<-|[]]].
+      + destruct (W2 _ Hin) as [A [o' [B C]]]. split; auto. exists o'. split; auto.
+      + split; [unfold op; destruct (mzero _); discriminate|]. exists o. split; [exact Hf|].
+        cbn [fst snd]. intros Hop. unfold op in Hop. destruct (mzero (h_ev (hget s i))) eqn:Hz; [discriminate|].
+        destruct (k_ev _ K fd i Hri Hz) as [o' [F G]]. cbn [fdt ep set_wq virt set_sq set_ep] in F, G.
+        rewrite vfold_other in G by auto.
+        change (ep s fd o <> None). congruence.
+    - intros ent Hin. apply in_app_or in Hin. destruct Hin as [Hin|[<-|[]]].
+      + destruct (W3 _ Hin) as [j [A B]]. exists j. split; auto. intros Hx. apply B. right; auto.
+      + exists i. split; auto. }
+  destruct (IH s' Hring K' W') as [R1 [R2 [R3 R4]]]. split_all; auto.
+Qed.
+
+Lemma reg_loop_ring_wq q : forall z, ring (reg_loop z q) = ring z /\ wq (reg_loop z q) = wq z.
+Proof.
+  induction q as [|i r IH]; intro z; cbn [reg_loop]; auto.
+  set (z1 := hupd z i (fun h => h_set_ev h (h_pev h))).
+  assert (Hr1 : ring z1 = ring z) by reflexivity. assert (Hw1 : wq z1 = wq z) by reflexivity.
+  destruct (ring z1) eqn:Hz.
+  - destruct (IH (set_sq z1 (sq z1 ++ [(if mzero (h_ev (hget z i)) then CAdd else CMod, h_fd (hget z i), h_pev (hget z i))]))) as [A B].
+    rewrite A, B. auto.
+  - pose proof (epoll_ctl_same z1 (if mzero (h_ev (hget z i)) then CAdd else CMod) (h_fd (hget z i)) (h_pev (hget z i))) as X.
+    cbv zeta in X. destruct (epoll_ctl z1 _ _ _) as [z2 e]. cbn [fst] in X.
+    destruct X as [_ [_ [X1 [[_ [_ [_ [_ [_ [X2 _]]]]]] _]]]].
+    destruct (e =? 0).
+    + destruct (IH z2) as [A B]. rewrite A, B. split; congruence.
+    + pose proof (epoll_ctl_same z2 CMod (h_fd (hget z i)) (h_pev (hget z i))) as Y.
+      cbv zeta in Y. destruct (epoll_ctl z2 CMod _ _) as [z3 e2]. cbn [fst] in Y.
+      destruct Y as [_ [_ [Y1 [[_ [_ [_ [_ [_ [Y2 _]]]]]] _]]]].
+      destruct (e2 =? 0).
+      * destruct (IH z3) as [A B]. rewrite A, B. split; congruence.
+      * destruct (IH (set_aborted z3 true)) as [A B]. rewrite A, B. cbn. split; congruence.
+Qed.
+
+Lemma KI_poll_prepare s : KI s -> KI (poll_prepare s) /\ wq (poll_prepare s) = [].
+Proof.
+  intros K. unfold poll_prepare.
+  destruct (reg_loop_ring_wq (wq s) (set_wq s [])) as [Hrl Hwl]. cbn [ring wq set_wq] in Hrl, Hwl.
+  rewrite Hrl. destruct (ring s) eqn:Hring.
+  - assert (K0 : KI (set_wq (virt (set_wq s [])) (wq s))).
+    { eapply KI_ext; [..|exact K]; try reflexivity; intros; cbn; rewrite (k_sq s K); reflexivity. }
+    assert (W0 : ringW (set_wq s []) (wq s)).
+    { unfold ringW. cbn [sq set_wq]. rewrite (k_sq s K). split_all; [constructor|intros ? []|intros ? []]. }
+    destruct (KI_reg_loop_ring (wq s) (set_wq s []) Hring K0 W0) as [R1 [[W1 [W2 _]] [R3 R4]]].
+    set (s1 := reg_loop (set_wq s []) (wq s)) in *.
+    assert (Ha1 : aborted s1 = false) by apply (k_abort _ R1).
+    destruct (ctl_flush_all_spec s1 Ha1 W1 W2) as [F1 [F2 [F3 F4]]]. cbv zeta in *.
+    destruct F2 as [A1 [A2 [A3 [A4 [A5 [A6 A7]]]]]].
+    split; [|rewrite A3; exact Hwl].
+    eapply KI_ext; [..|exact R1]; cbn [hs reg wq fdt ep pairs sq strict aborted set_wq virt set_sq set_ep]; auto.
+    + rewrite A1; auto.
+    + intro j. unfold hget. cbn [hs set_wq virt set_sq set_ep]. rewrite A1. reflexivity.
+    + rewrite A3. exact Hwl.
+    + congruence.
+  - assert (K0 : KI (set_wq (set_wq s []) (wq s))) by (eapply KI_same; [..|exact K]; reflexivity).
+    pose proof (KI_reg_loop_noring (wq s) (set_wq s []) Hring K0) as X.
+    split; auto. eapply KI_same; [..|exact X]; auto.
+Qed.
+
+Lemma dispatch_target_del s e fd : dispatch_target s e = TDel fd -> reg s fd = None.
+Proof.
+  destruct e as [[f orig] rep]. unfold dispatch_target. destruct (f =? -1); [discriminate|].
+  destruct (reg s f) as [j|] eqn:Hr.
+  - destruct (mzero _); discriminate.
+  - intros H. inversion H; subst. auto.
+Qed.
+
+Lemma KI_cb_pre s i ev efd rep : KI s -> (i < length (hs s))%nat -> KI (fst (cb_pre s i ev efd rep)).
+Proof.
+  intros K Hl. unfold cb_pre. destruct (h_kind (hget s i)); [|auto].
+  destruct (m_err ev && negb (m_pri ev)); [|auto]. cbn [fst].
+  apply KI_hupd_kview; [intros; reflexivity|]. apply KI_io_stop; auto.
+Qed.
+
+Lemma EK_cb_pre s i ev efd rep : EK (snd (cb_pre s i ev efd rep)).
+Proof. unfold cb_pre. case_all; exact Logic.I. Qed.
+
+Theorem run_KI : forall fdo pw beh os s s' evs,
+  KI s -> run fdo pw beh s os = (s', evs) -> KI s' /\ Forall EK evs.
+Proof.
+  intros fdo pw beh. apply (run_gen KI EK fdo pw beh).
+  - intros; apply KI_api; auto.
+  - intros s n. apply KI_same; reflexivity.
+  - intros s e rest K Hb.
+    assert (K0 : KI (set_batch s rest)) by (apply KI_set_batch; auto).
+    destruct (dispatch_target (set_batch s rest) e) as [|fd|i ev o2 r2] eqn:Ht; auto.
+    + apply dispatch_target_del in Ht. apply KI_del; auto.
+    + destruct e as [[fd orig] rep]. apply dispatch_target_call in Ht. destruct Ht as [_ [Hr _]].
+      destruct (k_reg _ K0 _ _ Hr) as [[Hl _] _]. split; [apply KI_cb_pre; auto|apply EK_cb_pre].
+  - intros s i rest K Hb.
+    assert (K0 : KI (set_prun s rest)) by (eapply KI_same; [..|exact K]; reflexivity).
+    split; [|apply EK_cb_pre]. unfold cb_pre. destruct (h_kind _); cbn; auto.
+  - intros s K. eapply KI_same; [..|exact K]; reflexivity.
+  - intros s K. eapply KI_same; [..|exact K]; reflexivity.
+  - intros s ans K _. destruct (KI_poll_prepare s K) as [K1 Hw]. split.
+    + cbn. apply KI_SYNC; auto.
+    + eapply KI_same; [..|exact K1]; reflexivity.
+  - intros s K _. apply KI_poll_prepare; auto.
+  - intros s K. apply KI_set_batch; auto.
+  - exact Logic.I.
+  - exact Logic.I.
+Qed.
+
+(* C14_kernel_in_sync_at_block, under the strict discipline *)
+Theorem kernel_in_sync : forall fdo pw beh os rng,
+  Forall EK (snd (run fdo pw beh (sinit rng true) os)).
+Proof.
+  intros. destruct (run fdo pw beh (sinit rng true) os) as [s' evs] eqn:H.
+  eapply run_KI in H; [|apply KI_init]. apply H.
 Qed.
